@@ -167,9 +167,9 @@ RECV_SEND_NOTE = ("Trusted: Lean kernel; the Lean models of SendTransaction / Re
 
 PROPS["C07"] = dict(
     title="Sender transmits exactly the source file: right bytes, offsets, sizes, checksum",
-    module="Cfdp.Props.C07t",
+    module="Cfdp.Props.C07h",
     namespace="Cfdp.Send",
-    theorems=["C07_data", "C07_nak_queue", "Cfdp.Loop.C07_eof", "Cfdp.Loop.C07_first_pass", "C07_nak_answer"],
+    theorems=["C07_data", "C07_nak_queue", "Cfdp.Loop.C07_eof", "Cfdp.Loop.C07_first_pass", "C07_nak_answer", "C07_headers"],
     engines=["send"],
     design="§6 C07",
     technique="Lean 4 invariant proof over all event histories of the sender model + differential correspondence with SendTransaction",
@@ -177,7 +177,15 @@ PROPS["C07"] = dict(
                 "(arbitrary NAK lists at any time, prompts, suspend/resume, cancel, timeouts) every file-data PDU transmitted carries exactly the file's "
                 "bytes at its offset, at most one segment, nothing beyond the end of the file, no segmented data is sent, every Metadata PDU states the "
                 "true names/size/closure/checksum type/options (C07_data), and the retransmission queue only ever holds the metadata marker or non-empty "
-                "in-file pieces of at most a segment (C07_nak_queue). The model is tied to send.rs by the send engine (500 quick / 6000 thorough random "
+                "in-file pieces of at most a segment (C07_nak_queue); every EOF PDU transmitted - the regular one, its retransmissions, the EOF(cancel) - states "
+                "the size the Metadata announced and the true checksum: the CCSDS modular checksum of the whole source file (Cksum.spec, tied to the chunked reading "
+                "loop by C14 and chunkBy_spec) for Modular, 0 for Null and for transactions without a file (C07_eof, Props/C07e.lean, invariant EofOk); the PDUs "
+                "transmitted by the first-pass iterations of any history are exactly the file cut into consecutive segments from offset 0 - each starts where the "
+                "previous one ended, NAKs answered in between do not move the pass - and a file transfer reaches the EOF phase only when the pass has covered the "
+                "whole file (C07_first_pass, Props/C07t.lean, ghost list firstPass + invariant Track); a queued request [a,b) is answered by one file-data PDU at "
+                "offset a carrying exactly the bytes [a,b) (C07_nak_answer); every PDU transmitted carries the transaction's entity ids and sequence number, mode, "
+                "CRC and file-size flags, direction to-receiver, the PDU type of its payload and a data-field length equal to the payload's encoded length "
+                "(C07_headers, Props/C07h.lean). The model is tied to send.rs by the send engine (500 quick / 6000 thorough random "
                 "histories compared step by step, byte-exact PDUs), whose oracles additionally check first-pass tiling, NAK answers inside the requested "
                 "ranges, EOF size/checksum and header fields on the implementation."),
     level_note=RECV_SEND_NOTE,
@@ -186,7 +194,7 @@ PROPS["C07"] = dict(
           "keep-alives, prompts, suspend/resume, cancel, report, ACK(EOF)/Finished at random rounds, timeouts at/just before deadlines. "
           "Non-trivial = a PDU was emitted or an indication raised."),
     assumptions=["the source file does not change between Put and EOF (metadata.file_size = length of the file read)", "0 < file_size_segment <= 65535"],
-    unproved=["every PDU carries the transaction's ids/mode/direction and dataLen = payload length: send engine oracle (header) + byte-exact correspondence"],
+    unproved=[],
 )
 
 PROPS["C19"] = dict(
@@ -289,10 +297,10 @@ PROPS["C18"] = dict(
 
 PROPS["C08"] = dict(
     title="Receiver NAKs are well-formed and ask for exactly what is missing",
-    module="Cfdp.Props.C08",
+    module="Cfdp.Props.C08h",
     namespace="Cfdp.Loop",
     theorems=["C08_wellformed", "Cfdp.Recv.C08_exact", "Cfdp.Recv.C08_queue_after_eof", "Cfdp.Recv.C08_queue_after_eof_delayed",
-              "Cfdp.Recv.C08_immediate_gap", "C08_deferred_quiet"],
+              "Cfdp.Recv.C08_immediate_gap", "C08_deferred_quiet", "Cfdp.Recv.C08_headers"],
     engines=["recv", "seg"],
     design="§6 C08",
     technique="Lean 4 invariant proofs over all event histories of the receiver model (using the C09 gap theorems) + differential correspondence",
@@ -304,7 +312,7 @@ PROPS["C08"] = dict(
                 "included, none already held (C08_exact via C09 gaps_exact; C08_queue_after_eof / _delayed say when the queue takes that value); under the deferred "
                 "procedure no NAK is transmitted over any history without EOF and Prompt PDUs (C08_deferred_quiet); under the immediate procedure a gap detected by a "
                 "data PDU is queued at once or gets a timer of the configured delay (C08_immediate_gap), and an expired timer appends only the gaps that persist in its "
-                "window (nq_handleDelayed). Tie to the code: recv engine (NAK queue, delayed timers, segment list and every emitted NAK compared) and seg engine (gaps)."),
+                "window (nq_handleDelayed); every PDU the receiver transmits over any history is addressed towards the sender and carries the transaction's ids, sequence number and mode (C08_headers, Props/C08h.lean). Tie to the code: recv engine (NAK queue, delayed timers, segment list and every emitted NAK compared) and seg engine (gaps)."),
     level_note=RECV_SEND_NOTE,
     rule=("recv engine as in C04 (loss of any subset of data segments and metadata, EOF first, data after EOF, duplicated EOF, prompts; deferred/immediate x delay 0/300 ms; "
           "segment sizes 16..64 so that NAK lists split over several PDUs; re-segmented overlapping data) + seg engine as in C09. Oracles wf_scope, wf_empty_range, "
@@ -339,7 +347,7 @@ PROPS["C17"] = dict(
                 "limit additionally only when no new data arrived since the previous NAK). Handlers: handle_fault records the condition, raises the Fault indication with "
                 "the current progress and then does exactly what handlerFor returns - Ignore continues, Cancel (also when nothing is configured), Suspend, Abandon = "
                 "Terminated with no PDU (C17_*_handler, _default_cancel, _abandon). One retransmission per expiry: an expiry below the limit only sets the EOF / Finished "
-                "flag, transmitting re-arms the timer and keeps the count (C17_*_ack_expiry, C17_send_eof_rearms); progress resets the counts (C17_*_progress_resets, "
+                "flag, transmitting re-arms the timer and keeps the count (C17_*_ack_expiry, C17_send_eof_rearms); progress resets the counts, and a PDU arriving while the sender is suspended leaves its inactivity counter paused (finding F36) (C17_*_progress_resets, "
                 "C17_recv_nak_progress). Tie to the code: send/recv engines compare every counter (count, paused, elapsed ns) after every call on a paused clock."),
     level_note=RECV_SEND_NOTE + " The ghost field Counter.base is not part of the code and is not compared; the theorems' conclusions mention only clock readings. "
                "The bounds are wall-clock bounds (time while suspended is not subtracted); the harness oracles check the un-suspended-time bounds on the real code.",
@@ -531,9 +539,9 @@ PROPS["C11"] = dict(
 
 PROPS["C02"] = dict(
     title="Acknowledged mode recovers from any bounded loss, duplication and reordering",
-    module="Cfdp.Props.C02s",
+    module="Cfdp.Props.C02i",
     namespace="Cfdp.Seg",
-    theorems=["C02_round_completes", "C02_gaps_answered", "Cfdp.Recv.C02_finishes_when_complete", "Cfdp.Recv.C02_never_waits_complete", "Cfdp.Recv.C02_complete_is_success"],
+    theorems=["C02_round_completes", "C02_gaps_answered", "Cfdp.Recv.C02_finishes_when_complete", "Cfdp.Recv.C02_never_waits_complete", "Cfdp.Recv.C02_complete_is_success", "Cfdp.Recv.C02_size_check_passes", "Cfdp.Loop.C02_no_integrity_fault", "Cfdp.Net.C02_two_party_no_integrity_fault"],
     engines=["daemon", "recv", "send", "net"],
     design="§6 C02",
     technique="Lean 4 proofs of the recovery steps over the segment / receiver / sender models; the composition over a lossy link is checked on two real daemons under a virtual clock with bounded fault plans",
@@ -541,7 +549,7 @@ PROPS["C02"] = dict(
                 "the bytes of [0, size) it was missing, its segment list covers [0, size) (C02_round_completes), in particular for exact answers to the requests of one NAK "
                 "(C02_gaps_answered; the requests are exactly what is missing by C08_exact, the sender's answers carry exactly the requested bytes of the file by C07); in the "
                 "iteration in which the last missing piece arrives the receiver finalises, enters the Finished phase and queues the Finished PDU "
-                "(C02_finishes_when_complete), and along every history an acknowledged receiver that is still collecting although Metadata and EOF have arrived really misses file data - it never sits on a complete file (C02_never_waits_complete, invariant Waiting, Props/C02w.lean); and when the segment list covers [0, size) of a staging file that agrees with the source (C01's invariant), with the Metadata and a NoError EOF carrying the source's size and checksum, check_finished verifies the checksum, copies the file under the destination name (if the filestore lets it), records NoError / Complete / Retained, tells the user so and queues a Finished PDU saying the same (C02_complete_is_success, Props/C02s.lean; the checksum the receiver computes over the complete staging file is the one C07_eof puts in the EOF: fileChecksum_true, via C14); every unanswered EOF / Finished / NAK is retransmitted once per timer expiry up to the limit (C17_*_ack_expiry, "
+                "(C02_finishes_when_complete), and along every history an acknowledged receiver that is still collecting although Metadata and EOF have arrived really misses file data - it never sits on a complete file (C02_never_waits_complete, invariant Waiting, Props/C02w.lean); and when the segment list covers [0, size) of a staging file that agrees with the source (C01's invariant), with the Metadata and a NoError EOF carrying the source's size and checksum, check_finished verifies the checksum, copies the file under the destination name (if the filestore lets it), records NoError / Complete / Retained, tells the user so and queues a Finished PDU saying the same (C02_complete_is_success, Props/C02s.lean; the checksum the receiver computes over the complete staging file is the one C07_eof puts in the EOF: fileChecksum_true, via C14); with a peer that only ever reports the source's true size and checksum the receiver never declares FileSizeError or FileChecksumFailure, along every history of deliveries, timeouts and user operations (C02_size_check_passes, C02_no_integrity_fault, invariant Link, Props/C02i.lean), and in the two-party model that hypothesis is discharged by the real sender's outputs (C02_two_party_no_integrity_fault); every unanswered EOF / Finished / NAK is retransmitted once per timer expiry up to the limit (C17_*_ack_expiry, "
                 "C17_send_eof_rearms, C08_queue_after_eof); duplicates and stragglers after completion change nothing (C04). PARTIAL: that these steps compose to completion "
                 "whenever fewer than `limit` consecutive transmissions of any PDU are lost is a liveness statement about two transaction models, the link and the scheduler; "
                 "it is not a theorem here. It is checked on the real code: the daemon engine runs acknowledged transfers between two real daemons with every kind of fault "
